@@ -94,9 +94,15 @@ func init() {
 			return "marshaltext-err"
 		}
 		var t version.Version
-		if err := t.UnmarshalText(mt); err != nil {
+		// encoding.TextUnmarshaler: the callee must copy what it keeps.  The buffer is the caller's and is overwritten
+		// right after the call (a reused read buffer); the version must not change with it.
+		mbuf := append([]byte{}, mt...)
+		if err := t.UnmarshalText(mbuf); err != nil {
 			res = append(res, "err")
 		} else {
+			for k := range mbuf {
+				mbuf[k] = '9'
+			}
 			res = append(res, showV(t))
 		}
 		js, err := json.Marshal(&v)
